@@ -15,6 +15,16 @@ short = {
  'C06-a': ("merge/update.go Update: 'nothing to rewrite' fast path ignores removals", "a second update by the same updater whose only effect is a removal of one of its own fields"),
  'C06-b': ("the pooled compareWalker / inLeaf slip again (seen from C06: removals are not reported, owners keep paths that are gone)", "an empty-versus-empty comparison earlier, then an update that removes an owned field"),
  'C07-a': ("merge/update.go Apply: early exit 'owns nothing, claims nothing' returns no object", "fresh manager applying a configuration made only of empty lists / {} onto an object lacking them"),
+ 'C01-c': ("value/value.go CompareUsing: int against float compared through int64(float) (seen from C01: the set algebra of prune pairs 1 with 1.5, the configuration's own member is removed)", "a numeric set or numeric key holding an int and a fractional float with the same integer part; a second apply by an owner"),
+ 'C02-c': ("typed/merge.go visitListItems: no lookup of the left counterpart once the left cursor is exhausted (seen from C02: fields of other managers in a reordered item are dropped and disowned without conflict)", "a keyed list whose shared items come in another order in the configuration, live items carrying fields the configuration omits"),
+ 'C03-c': ("typed/remove.go doList: when removing, key fields of an item that stays are taken out of the removal set", "a key field with a default, written out with its default value and later omitted by the same manager"),
+ 'C05-c': ("merge/update.go Update: returns the LIVE object when the comparison reports nothing", "an update that only reorders the members of a set or keyed list"),
+ 'C06-c': ("fieldpath/element.go PathElementSet.Difference: galloping search with an off-by-one", "one operation removing at least three sibling fields, another manager owning one that is not the first"),
+ 'C11-c': ("typed compareWalker returned to its pool without resetting inLeaf (third independent rediscovery)", "a comparison of two leaf roots earlier in the process"),
+ 'C12-c': ("typed/merge.go doMap: missing parentheses in emptyPromoteToLeaf (`lhs == nil || lhs.Empty() && ...`)", "a right-hand side valid only with duplicates whose duplicated list sits beneath a map field the left side lacks"),
+ 'C13-c': ("schema/elements.go Resolve: the override cache keyed by (name, relationship) instead of the TypeRef, so all inlined overriding references with one relationship collide", "two inlined type references with the same elementRelationship override and different structures"),
+ 'C14-c': ("value/value.go CompareUsing int/float truncation again (seen from C14: removal leaves a member, extraction omits one)", "a numeric set or numeric-keyed list holding n and n+0.5, S mentioning both"),
+ 'C19-c': ("fieldpath/set.go SetMatcher.Merge: works in place on the receiver's members, so building a filter widens the caller's first pattern value", "one pattern value used first in a multi-pattern filter and again in another filter (e.g. of another version)"),
  'C07-b': ("the aliasing in EnsureNamedFieldsAreMembers once more (seen from C07: a re-apply rewrites the applier's own record)", "a second apply by a manager whose record has 3, 5–7 leaf members at a nested struct level and a struct sibling sorting before one of them"),
  'C08-b': ("fieldpath/set.go SetNodeMap.RecursiveDifference: binary-search fast-forward keeps `s.members[:i]` with the receiver's capacity, later appends write into the receiver", "s2 with children only at some level, s with an earlier child and a later child that loses something (reached through reconciliation when a nested struct turns atomic)"),
  'C09-b': ("schema/elements.go Resolve: a field-level elementRelationship override is written into the shared named LIST type instead of a copy", "a named list type referenced both plainly and with an override; any earlier call that resolves the overriding reference changes later results"),
